@@ -433,6 +433,38 @@ func catalogue() []*deviant {
 		}
 		return hackpadfs.TruncateFile(f, s+1), true
 	}})
+	// one Truncate scenario each: a deviation confined to shrinking, growing, emptying or a negative size
+	sizeOf := func(f hackpadfs.File) int64 {
+		info, err := f.Stat()
+		if err != nil {
+			return -1
+		}
+		return info.Size()
+	}
+	add(&deviant{name: "truncate-never-shrinks", truncate: func(f hackpadfs.File, s int64) (error, bool) {
+		if cur := sizeOf(f); s > 0 && cur >= 0 && s < cur {
+			return nil, true
+		}
+		return nil, false
+	}})
+	add(&deviant{name: "truncate-never-grows", truncate: func(f hackpadfs.File, s int64) (error, bool) {
+		if cur := sizeOf(f); cur >= 0 && s > cur {
+			return nil, true
+		}
+		return nil, false
+	}})
+	add(&deviant{name: "truncate-zero-noop", truncate: func(f hackpadfs.File, s int64) (error, bool) {
+		return nil, s == 0
+	}})
+	add(&deviant{name: "truncate-negative-accepted", truncate: func(f hackpadfs.File, s int64) (error, bool) {
+		return nil, s < 0
+	}})
+	add(&deviant{name: "truncate-negative-wrong-kind", truncate: func(f hackpadfs.File, s int64) (error, bool) {
+		if s < 0 {
+			return &hackpadfs.PathError{Op: "truncate", Path: "foo", Err: hackpadfs.ErrNotExist}, true
+		}
+		return nil, false
+	}})
 	add(&deviant{name: "seek-end-off-by-one", seek: func(f hackpadfs.File, off int64, wh int) (int64, error, bool) {
 		if wh == io.SeekEnd {
 			n, err := hackpadfs.SeekFile(f, off+1, wh)
